@@ -1,7 +1,7 @@
 (* C02 -- lossless mode reproduces every sample exactly.
    Property theorems only: statement + exact + Print Assumptions. *)
 From Coq Require Import List ZArith.
-From LJT Require Import model.Huff model.Lossless proofs.LosslessProofs gen.GenLossless proofs.LosslessGenProofs.
+From LJT Require Import model.Huff model.Lossless proofs.LosslessProofs proofs.LosslessScanProofs proofs.LosslessBitsProofs gen.GenLossless proofs.LosslessGenProofs.
 Import ListNotations.
 Local Open Scope Z_scope.
 
@@ -63,6 +63,33 @@ Theorem C02_component_roundtrip_pt0 : forall ri mpr psv prec w rows,
 Proof. exact codec_component_pt0. Qed.
 Print Assumptions C02_component_roundtrip_pt0.
 
+(* (2) a whole scan of n components (interleaved: one sample row of every
+   component per MCU row; n = 1: non-interleaved), per-component predictor state
+   and restart counters in the compressor, ONE restart counter and a reset of
+   every component in the decompressor *)
+Theorem C02_scan_roundtrip : forall n ri mpr psv prec pt w mrows,
+  2 <= prec <= 16 -> 1 <= psv <= 7 -> 0 <= pt < prec ->
+  (ri = 0 \/ (0 < mpr /\ 0 < ri < 4294967296 /\ ri mod mpr = 0)) -> 0 < mpr ->
+  Forall (fun mr => length mr = n /\
+          Forall (fun r => length r = w /\ Forall (fun s => 0 <= s < 2 ^ prec) r) mr) mrows ->
+  codec_scan n ri mpr psv prec pt mrows =
+  Some (map (map (map (fun s => Z.shiftl (Z.shiftr s pt) pt))) mrows).
+Proof. exact codec_scan_correct. Qed.
+Print Assumptions C02_scan_roundtrip.
+
+(* (3, interleaved bit level) the MCU row written column by column, one sample
+   per component with the table of that component, is read back and
+   de-interleaved into the canonical difference rows *)
+Theorem C02_interleaved_bitstream :
+  forall (code : Z -> Z -> list bool) (dec : Z -> list bool -> option (Z * list bool)),
+  (forall tbl s rest, 0 <= s <= 16 -> dec tbl (code tbl s ++ rest) = Some (s, rest)) ->
+  forall tbls w rows rest,
+  length rows = length tbls -> Forall (fun r => length r = w) rows ->
+  decode_mcu_row dec tbls w (encode_mcu_row code tbls w rows ++ rest)
+  = Some (map (map canon_diff) rows, rest).
+Proof. exact decode_encode_mcu_row. Qed.
+Print Assumptions C02_interleaved_bitstream.
+
 (* tie: the predictor macros, the wiring of the fourteen [un]differencing
    functions, the first-row switch, the "& 0xFFFF" masks and the constants of the
    category coder, as translated from the CURRENT sources (gen/GenLossless.v),
@@ -87,6 +114,15 @@ Example C02_ex_alt16 :
      | Some out => if list_eq_dec (list_eq_dec Z.eq_dec) out alt16 then true else false
      | None => false end) [0; 3; 6]) [1; 2; 3; 4; 5; 6; 7] = true.
 Proof. exact alt16_roundtrip_computed. Qed.
+Example C02_ex_rgb16_hyp : Forall (fun mr => length mr = 3%nat /\
+          Forall (fun r => length r = 2%nat /\ Forall (fun s => 0 <= s < 2 ^ 16) r) mr) rgb16.
+Proof. exact rgb16_ok. Qed.
+Example C02_ex_rgb16 :
+  forallb (fun psv => forallb (fun ri =>
+     match codec_scan 3 ri 2 psv 16 0 rgb16 with
+     | Some out => if list_eq_dec (list_eq_dec (list_eq_dec Z.eq_dec)) out rgb16 then true else false
+     | None => false end) [0; 2; 4]) [1; 2; 3; 4; 5; 6; 7] = true.
+Proof. exact rgb16_roundtrip_computed. Qed.
 Example C02_ex_wide_difference :
   enc_component 0 3 4 16 0 alt16 =
   Some [[-32768; 65535; -65535]; [65535; -131070; 131070]; [-65535; 131070; -131070]; [65535; -65535; 0]].
